@@ -18,6 +18,9 @@ def run(rep: Report, repo: Repo, tier: str) -> None:
     misc_rules.rule_document_order(rep, repo, "C12-R5o", "C12-R5")
     atn_rules.rule_doc_tokens(rep, repo, "C12-R5t")
     rule_module_callback(rep, repo, "C12-R5m")
+    # "that doccomment's text becomes the module directive's content": line for line
+    from . import bindings
+    bindings.rule_module_doc_verbatim(rep, repo, "C12-R5v")
     fsrules.rule_topdir_test(rep, repo, "C12-R6")
 
 
